@@ -60,8 +60,8 @@ func c08Matrix() []c08Case {
 		c08Case{"audit-path-regular-file", "load"}) // "load" here: the sshd pipe has a live writer
 	// the events sink breaks AFTER the login was recorded: only the audit side's writes fail.
 	// single: one failing event; batch: an incomplete compound event holds back three complete ones,
-	// its terminator releases all four inside one PushMessage; stream: 40 failing events in a row
-	cs = append(cs, c08Case{"audit-write-error", "single"}, c08Case{"audit-write-error", "batch"}, c08Case{"audit-write-error", "stream"})
+	// its terminator releases all four inside one PushMessage (batch64: 64 held back); stream: 40 failing events in a row
+	cs = append(cs, c08Case{"audit-write-error", "single"}, c08Case{"audit-write-error", "batch"}, c08Case{"audit-write-error", "batch64"}, c08Case{"audit-write-error", "stream"})
 	return cs
 }
 
@@ -371,10 +371,16 @@ func runC08Scenario(bin, dir, cause, variant string, rep int) (r result) {
 			switch variant {
 			case "single":
 				recs = fmt.Sprintf(auditLineFmt, 10, ses)
-			case "batch":
-				recs = fmt.Sprintf("type=SYSCALL msg=audit(1690000000.000:10): arch=c000003e syscall=59 success=yes exit=0 a0=1 a1=2 a2=3 a3=8 items=0 ppid=1 pid=5000 auid=1000 uid=1000 gid=1000 euid=1000 suid=1000 fsuid=1000 egid=1000 sgid=1000 fsgid=1000 tty=pts3 ses=%d comm=\"ls\" exe=\"/usr/bin/ls\" key=\"k\"\n", ses) +
-					fmt.Sprintf(auditLineFmt, 11, ses) + fmt.Sprintf(auditLineFmt, 12, ses) + fmt.Sprintf(auditLineFmt, 13, ses) +
-					"type=EOE msg=audit(1690000000.000:10): \n"
+			case "batch", "batch64":
+				held := 3
+				if variant == "batch64" {
+					held = 64
+				}
+				recs = fmt.Sprintf("type=SYSCALL msg=audit(1690000000.000:10): arch=c000003e syscall=59 success=yes exit=0 a0=1 a1=2 a2=3 a3=8 items=0 ppid=1 pid=5000 auid=1000 uid=1000 gid=1000 euid=1000 suid=1000 fsuid=1000 egid=1000 sgid=1000 fsgid=1000 tty=pts3 ses=%d comm=\"ls\" exe=\"/usr/bin/ls\" key=\"k\"\n", ses)
+				for i := 0; i < held; i++ {
+					recs += fmt.Sprintf(auditLineFmt, 11+i, ses)
+				}
+				recs += "type=EOE msg=audit(1690000000.000:10): \n"
 			default: // stream
 				for i := 0; i < 40; i++ {
 					recs += fmt.Sprintf(auditLineFmt, 10+i, ses)
